@@ -163,7 +163,7 @@ def work_perm(spec):
         order = list(order)
         key = '%s:%s:%s/%s' % (spec['solver'], ','.join(order), spec['tight'], spec['clip'])
         if order == spec['calls']:
-            res.case(key, nontrivial=len(ref) > 1, sample={'solver': spec['solver'], 'order': order})
+            res.case(key, nontrivial=len(ref) > 1)
             continue
         t = run_perm(spec, order)
         res.case(key, nontrivial=len(t) > 1)
@@ -271,7 +271,7 @@ def gen_de2_specs(seed, n):
 
 def check_de2(spec, maps, res, extra=None):
     ref = safe(run_de2, spec, 'builtin')
-    res.case('de2:builtin:%d' % spec['seed'], sample={k: spec[k] for k in ('ndim', 'npop', 'cost', 'strategy', 'bounds')})
+    res.case('de2:builtin:%d' % spec['seed'])
     for m in maps:
         t = safe(run_de2, spec, m)
         if t is None:
@@ -365,8 +365,7 @@ def check_ens(spec, maps, res, extra=None):
         return r[0] if isinstance(r, list) else r
     ref = go('solve', 'builtin')
     tag = '%s/%s:%d' % (spec['ens'], spec['nested'], spec['seed'])
-    res.case('ens:solve:builtin:' + tag, nontrivial=ref[0] != 'EXC',
-             sample={k: spec[k] for k in ('ens', 'nested', 'ndim', 'nbins', 'npts', 'cost')})
+    res.case('ens:solve:builtin:' + tag, nontrivial=ref[0] != 'EXC')
     if ref[0] == 'EXC' and extra is not None:
         extra.setdefault('aborted', []).append(str(ref))
     for mode in ('step', 'solve-step'):
@@ -406,8 +405,8 @@ def _work(spec):
 
 def run(tier='quick', seed=0):
     quick = tier == 'quick'
-    n_perm, sizes = (24, [2, 3, 4, 5, 5, 5]) if quick else (150, [1, 2, 3, 4, 5, 5, 5])
-    n_de2, n_ens = (200, 200) if quick else (3000, 3000)
+    n_perm, sizes = (18, [2, 3, 4, 5, 5, 5]) if quick else (150, [1, 2, 3, 4, 5, 5, 5])
+    n_de2, n_ens = (160, 160) if quick else (3000, 3000)
     res = Result(
         rule='(i) seeded subsets of <= 5 distinct Set* calls x ALL their permutations per solver type (DE1, DE2, NM, '
              'Powell), trajectory over <= 10 Steps compared == with the sorted order; (ii) seeded DE2 settings, builtin '
@@ -415,11 +414,13 @@ def run(tier='quick', seed=0):
              'compared ==; (iii) seeded Lattice/Buckshot ensembles with NM/Powell members: Solve vs Step-until-Terminated '
              'vs Solve(step=True) and Solve under each map: (bestSolution, bestEnergy, total evaluations) compared ==. '
              'distinct = distinct (solver, call order, range mode) / (scenario, map) / (scenario, mode, map)',
-        bound='%d call sets per solver type (all permutations each), %d DE2 scenarios x %d maps, %d ensemble scenarios '
-              'x 3 modes x %d maps; dims 1-4, <= 10 steps (i), <= 30 generations (ii), <= 60 generations/member (iii)'
-              % (n_perm, n_de2, 4 if quick else 5, n_ens, 4 if quick else 5))
+        bound='%d call sets per solver type (all permutations each), %d DE2 scenarios x 4 maps, %d ensemble scenarios '
+              'x 3 modes x 4 maps%s; dims 1-4, <= 10 steps (i), <= 30 generations (ii), <= 60 generations/member (iii)'
+              % (n_perm, n_de2, n_ens, '' if quick else ', process-pool map on 40 DE2 + 40 ensemble scenarios'))
     specs = gen_perm_specs(seed, n_perm, sizes) + gen_de2_specs(seed, n_de2) + gen_ens_specs(seed, n_ens)
     specs.sort(key=lambda sp: -math.factorial(len(sp['calls'])) if sp['kind'] == 'perm' else 0)
+    for kind in ('perm', 'de2map', 'ens'):
+        res.samples.append(jsonable([sp for sp in specs if sp['kind'] == kind][0]))
     for part in pmap(_work, specs):
         res.merge(part)
         for a in part.get('aborted', []):
